@@ -618,6 +618,7 @@ func drawWeak(rt *rapid.T) *weak {
 			pub = m.Mutable(field(m, "public_key")).Message()
 		}
 		var rk *rsa.PrivateKey
+		var wideE []byte
 		if usePublic && gen.OneIn(rt, "healthy_control", 16) {
 			w.control, w.asserted = true, false
 			rk = rsaFromPrimes(new(big.Int).SetBytes(info.Fields["p"].([]byte)), new(big.Int).SetBytes(info.Fields["q"].([]byte)), 65537)
@@ -629,6 +630,18 @@ func drawWeak(rt *rapid.T) *weak {
 			mat := weakRSA[rapid.IntRange(0, len(weakRSA)-1).Draw(rt, "weak_rsa")]
 			rk = mat.key
 			w.desc = fmt.Sprintf("%s modulus of %d bits (public=%v)", typ, mat.bits, usePublic)
+		} else if gen.OneIn(rt, "wide_exponent", 3) {
+			// an exponent that does not fit in 64 bits and whose low 64 bits are 65537: k*2^64 + 65537.
+			// It is "an exponent other than 65537"; a parser that converts with big.Int.Int64() without
+			// a range check sees 65537 (found by a seed worker while reading the RSA parsers: F20)
+			p, q := new(big.Int).SetBytes(info.Fields["p"].([]byte)), new(big.Int).SetBytes(info.Fields["q"].([]byte))
+			rk = rsaFromPrimes(p, q, 65537)
+			if rk == nil {
+				rt.Fatalf("harness: cannot rebuild the RSA key of %s", info.Desc)
+			}
+			k := rapid.IntRange(1, 255).Draw(rt, "wide_exponent_high_byte")
+			wideE = append([]byte{byte(k)}, 0, 0, 0, 0, 0, 1, 0, 1)
+			w.desc = fmt.Sprintf("%s exponent %d*2^64+65537 (encoded %x; public=%v)", typ, k, wideE, usePublic)
 		} else {
 			// the primes of the valid key with another exponent
 			p, q := new(big.Int).SetBytes(info.Fields["p"].([]byte)), new(big.Int).SetBytes(info.Fields["q"].([]byte))
@@ -644,6 +657,9 @@ func drawWeak(rt *rapid.T) *weak {
 		}
 		setBytes(pub, "n", rk.N.Bytes())
 		setBytes(pub, "e", big.NewInt(int64(rk.E)).Bytes())
+		if wideE != nil {
+			setBytes(pub, "e", wideE)
+		}
 		if !usePublic {
 			setBytes(m, "d", rk.D.Bytes())
 			setBytes(m, "p", rk.Primes[0].Bytes())
